@@ -293,6 +293,8 @@ type Worker struct {
 	journal  []journalEnt
 	mergeDepthAbort bool
 	inInit          bool
+	lazyDone        map[string]bool
+	lazyForce       bool
 	mapIters        map[*Value]*mapIterState
 	gmpSeq          int
 	observes        []obsRec
@@ -371,6 +373,8 @@ func (w *Worker) runPath(j Job) {
 	w.globals = map[*ssa.Global]*Value{}
 	w.nextBack = 0
 	w.depth = 0
+	w.lazyDone = nil
+	w.lazyForce = false
 	w.mapIters = nil
 	w.gmpSeq = 0
 	w.observes = w.observes[:0]
